@@ -91,7 +91,7 @@ var specs = map[string]*PropSpec{
 	},
 	"C17": {
 		Level: "exploration", Race: true, RestartEvery: 20, QuickRuns: 3000, ThorRuns: 100000, QuickCap: 150 * time.Second, ThorCap: 28 * time.Minute, QuickWD: 20000, ThorWD: 40000,
-		Rule: "one run = one seeded schedule of 2-6 simulated caller threads x 1-3 operations each (marshal via ce.Marshal* or a shared iterator.Session, unmarshal via ce.Unmarshal* or a shared builder.Session, decode, validate) on 1-2 drawn value types that no session has seen before (struct/slice/map/pointer/recursive/unsupported kinds), with sharing mode (package-level only / iterator.Session / builder.Session / both; optionally the same input object marshaled by several threads) and scheduler bias (uniform, sticky, switch-at-install, round-robin, starvation) drawn per run. The tape picks the next thread at every yield point (operation boundary, reader/writer call, event, type-cache hook site). Invariants: no race-detector report with a library/dependency frame during the schedule (worker built with -race; thread hand-off via raw pipe syscalls so the detector sees only the library's own synchronisation); no deadlock/livelock (real blocking detected from goroutine state); each call's bytes/value/events/err==nil equal the same call run alone on fresh instances and sessions after the join. Non-trivial = the schedule has more steps than threads; distinct = distinct hashes of the (thread, site) sequence, i.e. distinct interleavings",
+		Rule: "one run = one seeded schedule of 2-6 simulated caller threads x 1-3 operations each (marshal via ce.Marshal* or a shared iterator.Session, unmarshal via ce.Unmarshal* or a shared builder.Session, decode, validate) on 1-2 drawn value types that no session has seen before (struct/slice/map/pointer/recursive/unsupported kinds), with sharing mode (package-level only / iterator.Session / builder.Session / both; optionally the same input object marshaled by several threads) and scheduler bias (uniform, sticky, switch-at-cache-miss, round-robin, starvation) drawn per run. The tape picks the next thread at every yield point (operation boundary, reader/writer call, event, type-cache hook site). Invariants: no race-detector report with a library/dependency frame during the schedule (worker built with -race; thread hand-off via raw pipe syscalls so the detector sees only the library's own synchronisation); no deadlock/livelock (real blocking detected from goroutine state); each call's bytes/value/events/err==nil equal the same call run alone on fresh instances and sessions after the join. Non-trivial = the schedule has more steps than threads; distinct = distinct hashes of the (thread, site) sequence, i.e. distinct interleavings",
 		Stubs: []string{"thread scheduler (sched: raw-pipe hand-off, quiescence by goroutine-state inspection)", "SimReader/SimWriter"}, Real: append([]string{"sync.Map/WaitGroup type-cache protocols in iterator.Session and builder.Session (real blocking)", "Go race detector as invariant monitor"}, commonReal...),
 		StepKeys: []string{"scheduler_steps", "operations"},
 		Assumptions: []string{"schedules interleave at yield points (seam calls, events, hook sites), not at every memory access; races are still detected at access granularity on each explored schedule", "GOMAXPROCS does not influence the outcome: one simulated thread runs at a time (determinism self-test)"},
@@ -221,7 +221,7 @@ var expectedProbes = map[string][]string{
 	"C08": {"allocation_within_10x_of_budget"},
 	"C11": {"split_inside_character", "zero_length_chunk", "chunk_boundary_inside_character_fault_rejected"},
 	"C16": {"operation_after_a_failed_one"},
-	"C17": {"placeholder_installed", "placeholder_entered", "LoadOrStore_lost_the_race", "thread_blocked_in_library_sync", "blocked_thread_released_later", "same_object_marshaled_by_several_threads"},
+	"C17": {"type_cache_miss_about_to_generate", "generation_finished", "thread_blocked_in_library_sync", "blocked_thread_released_later", "same_object_marshaled_by_several_threads"},
 }
 
 func (s *PropSpec) expectedProbes() []string { return expectedProbes[prop] }
